@@ -2,83 +2,108 @@
 (***************************************************************************)
 (* Exhaustive exploration of the FileLogger design for small constants:    *)
 (* two days, at most MaxLogs log calls of three families, MaxCycles        *)
-(* periodic cycles split in their two halves (so a Log between the halves  *)
-(* is explored), a directory with the four file-name shapes retention must *)
-(* tell apart, and every Read window over a 10-byte file.                  *)
+(* periodic cycles split in their two halves (so a Log between the halves, *)
+(* and between the banner lines, is explored), a directory with the file-  *)
+(* name shapes retention must tell apart (one of them created by an        *)
+(* external writer at any moment), and Read windows over a 10-byte file    *)
+(* (every window in the initial state, a border set in every other state). *)
 (*                                                                         *)
 (* MC_FileLogger.cfg       Design = "repaired": all properties hold        *)
-(* MC_FileLogger_asis.cfg  Design = "asis": TLC refutes LinesWholeInOrder  *)
-(*                         (a line logged between close and reopen is lost)*)
+(* MC_FileLogger_asis.cfg  Design = "asis" (close, then open -- what golib *)
+(*                         did before the C17 repair): TLC refutes         *)
+(*                         LinesWholeInOrder (a line logged between close  *)
+(*                         and reopen is lost).  Documentation of the      *)
+(*                         repaired defect; not part of the check.         *)
 (***************************************************************************)
 EXTENDS FileLogger
 
-CONSTANTS MaxLogs, MaxCycles, MaxAdv, MaxReads
+CONSTANTS MaxLogs, MaxCycles, MaxAdv, MaxReads, MaxExt
 
-VARIABLES calls, cycles, advs, reads
-mcvars == <<vars, calls, cycles, advs, reads>>
+VARIABLES calls, cycles, advs, reads, exts
+cnt == <<calls, cycles, advs, reads, exts>>
+mcvars == <<vars, cnt>>
 
 Id    == <<119>>                 \* "w"
 Oname == <<98>>                  \* "b"
 D0    == 9                       \* 2000-01-10
 St    == <<50,48,48,48,47,48,49,47,48,49,32,48,48,58,48,48,58,48,48,32>>   \* "2000/01/01 00:00:00 "
-C0    == [level |-> 2, iv |-> 2, keep |-> 2, rot |-> TRUE, id |-> Id, oname |-> Oname]
 T0    == [d |-> D0, ms |-> DayMs - 30000]                                  \* half a minute to midnight
 
 Own(day) == Id \o <<DASH>> \o Oname \o <<DASH>> \o YMD(day) \o DotLog
-OldOwn   == Own(D0 - 3)                                                    \* older than keep-days
+OldOwn   == Own(D0 - 8)                                                    \* older than keep-days (7)
+EdgeOwn  == Own(D0 - 7)                                                    \* exactly keep-days old today
 YoungOwn == Own(D0 - 1)                                                    \* within keep-days
-Foreign  == <<119, 120, 45, 98, 45>> \o YMD(D0 - 5) \o DotLog              \* "wx-b-<old date>.log"
+Foreign  == <<119, 120, 45, 98, 45>> \o YMD(D0 - 9) \o DotLog              \* "wx-b-<old date>.log"
 NonDate  == <<119, 45, 100, 97, 116, 97, 98, 97, 115, 101>> \o DotLog      \* "w-database.log"
+BadDate  == <<119, 45, 98, 45, 50, 48, 48, 48, 49, 51, 52, 48>> \o DotLog  \* "w-b-20001340.log"
 TenFile  == <<114>>                                                        \* "r": ten bytes to read
 Ten      == <<1, 2, 3, 4, 5, 6, 7, 8, 9, 10>>
-Survivors == {YoungOwn, Foreign, NonDate, TenFile}
+Survivors == {YoungOwn, Foreign, BadDate, TenFile}
 
 MCBanner == BannerOf(Oname, now, St, St, St, <<48>>)
 
-MCInit == /\ now = T0 /\ conf = C0
-          /\ files = (OldOwn :> <<111>>) @@ (YoungOwn :> <<121>>) @@ (Foreign :> <<102>>) @@ (NonDate :> <<110>>)
-                     @@ (TenFile :> Ten) @@ (Own(D0) :> BannerOf(Oname, T0, St, St, St, <<48>>))
-          /\ dirs = {} /\ cur = Own(D0) /\ lastDay = D0 /\ lastRot = TRUE
-          /\ retainAt = T0 /\ recent = EmptyFn /\ phase = "run"
-          /\ acc = 0 /\ wrote = EmptyFn /\ gone = {} /\ fresh = TRUE /\ supp = NoSupp
+MCInit == /\ now = T0
+          /\ conf = [level |-> 2, iv |-> 10, keep |-> 7, rot |-> TRUE, id |-> <<>>, oname |-> <<>>]
+          /\ files = (OldOwn :> <<111>>) @@ (EdgeOwn :> <<101>>) @@ (YoungOwn :> <<121>>) @@ (Foreign :> <<102>>)
+                     @@ (BadDate :> <<98>>) @@ (TenFile :> Ten)
+          /\ dirs = {} /\ cur = Closed /\ lastDay = 0 /\ lastRot = TRUE
+          /\ retainAt = T0 /\ recent = EmptyFn /\ phase = "new" /\ bleft = 0
+          /\ acc = 0 /\ wrote = EmptyFn /\ gone = {} /\ fresh = FALSE /\ supp = NoSupp
           /\ deleted = {} /\ rd = NoRead
-          /\ calls = 0 /\ cycles = 0 /\ advs = 0 /\ reads = 0
+          /\ calls = 0 /\ cycles = 0 /\ advs = 0 /\ reads = 0 /\ exts = 0
 
 Msgs == {<<97>>}
 Pids == {<<120>>}
+Live == reads = 0                    \* a Read is a leaf of the exploration
 
-MCLog == /\ calls < MaxLogs /\ calls' = calls + 1 /\ UNCHANGED <<cycles, advs, reads>>
+MCOpen == Live /\ Open(Id, Oname, 2, MCBanner) /\ UNCHANGED cnt
+
+MCLog == /\ Live /\ calls < MaxLogs /\ calls' = calls + 1 /\ UNCHANGED <<cycles, advs, reads, exts>>
          /\ \E kind \in {"W", "I", "P"}, s \in Msgs, pid \in Pids :
               \/ LogDrop(kind)
               \/ LogSuppress(kind, pid, s)
               \/ LogEmit(kind, pid, s, St, 2)
               \/ LogLose(kind, pid, s)
 
-MCAdvance == /\ advs < MaxAdv /\ advs' = advs + 1 /\ UNCHANGED <<calls, cycles, reads>>
+MCAdvance == /\ Live /\ phase # "new" /\ advs < MaxAdv /\ advs' = advs + 1 /\ UNCHANGED <<calls, cycles, reads, exts>>
              /\ \E dt \in {1000, 61000} : AddMs(now, dt).d <= D0 + 1 /\ Advance(AddMs(now, dt))
 
-MCCycle == \/ /\ cycles < MaxCycles /\ cycles' = cycles + 1 /\ UNCHANGED <<calls, advs, reads>>
-              /\ \/ CycleA("none", <<>>, {})
-                 \/ Design = "repaired" /\ CycleA("swap", MCBanner, {})
-                 \/ Design = "asis" /\ CycleA("close", <<>>, {})
-           \/ /\ UNCHANGED <<calls, cycles, advs, reads>>
-              /\ (CycleB(<<>>) \/ CycleB(MCBanner))
+MCCycle == /\ Live
+           /\ \/ /\ cycles < MaxCycles /\ cycles' = cycles + 1 /\ UNCHANGED <<calls, advs, reads, exts>>
+                 /\ \E ran \in BOOLEAN :
+                      \/ CycleA("none", <<>>, {}, ran)
+                      \/ Design = "repaired" /\ CycleA("swap", MCBanner, {}, ran)
+                      \/ Design = "repaired" /\ CycleA("swap", <<>>, {}, ran)
+                      \/ Design = "asis" /\ CycleA("close", <<>>, {}, ran)
+              \/ /\ UNCHANGED cnt
+                 /\ \/ CycleB(<<>>) \/ CycleB(MCBanner)
+                    \/ BannerLine(St \o <<NL>>)
+                    \/ BannerLine(BannerMid(Oname, now, St, <<48>>))
 
-MCConf == /\ cycles < MaxCycles /\ calls = 0 /\ conf.rot
-          /\ Configure(2, 2, 2, FALSE) /\ UNCHANGED <<calls, cycles, advs, reads>>
+\* keep-days 2, interval 2 s; rotation on or off
+MCConf == /\ Live /\ cycles < MaxCycles /\ calls = 0 /\ conf.keep = 7
+          /\ \E rot \in BOOLEAN : Configure(2, 2, 2, rot)
+          /\ UNCHANGED cnt
+
+MCExt == /\ Live /\ exts < MaxExt /\ exts' = exts + 1 /\ UNCHANGED <<calls, cycles, advs, reads>>
+         /\ ExternalFile(NonDate, <<110>>)
 
 ReadNames == {TenFile, <<46, 46, 47>> \o TenFile, <<115, 47, 46, 46, 47>> \o TenFile, <<47>> \o TenFile, <<113>>, <<>>}
-MCRead == /\ reads < MaxReads /\ reads' = reads + 1 /\ UNCHANGED <<calls, cycles, advs>>
-          /\ \E f \in ReadNames, e \in -1..11, ln \in -1..12 :
+Wide == calls + cycles + advs + exts = 0
+MCRead == /\ phase = "run" /\ reads < MaxReads /\ reads' = reads + 1 /\ UNCHANGED <<calls, cycles, advs, exts>>
+          /\ \E f \in (IF Wide THEN ReadNames ELSE {cur, <<46, 46, 47>> \o TenFile}),
+                e \in (IF Wide THEN -1..11 ELSE {-1, 25}),
+                ln \in (IF Wide THEN -1..12 ELSE {30}) :
                LET a == ReadAnswer(f, e, ln) IN
-                 Read(f, e, ln, IF a.nil THEN [nil |-> TRUE] ELSE [nil |-> FALSE, before |-> a.before, text |-> a.text, next |-> -1], <<>>, <<>>)
+                 Read(f, e, ln, IF a.nil THEN [nil |-> TRUE] ELSE [nil |-> FALSE, before |-> a.before, text |-> a.text], <<>>, <<>>)
 
-MCNext == MCLog \/ MCAdvance \/ MCCycle \/ MCConf \/ MCRead
+MCNext == MCOpen \/ MCLog \/ MCAdvance \/ MCCycle \/ MCConf \/ MCExt \/ MCRead
 MCSpec == MCInit /\ [][MCNext]_mcvars
 
 \* retention leaves everything that is not an own dated file past keep-days
-SurvivorsSurvive == Survivors \subseteq DOMAIN files
-\* after a completed cycle with retention due, the old own file is gone
+SurvivorsSurvive == /\ Survivors \subseteq DOMAIN files
+                    /\ (exts > 0 => NonDate \in DOMAIN files)
+                    /\ (conf.keep = 7 /\ now.d = D0 => EdgeOwn \in DOMAIN files)
+\* after a completed cycle in which retention was due, the old own file is gone
 OldRemoved == (phase = "run" /\ cycles > 0 /\ retainAt # T0 /\ conf.rot) => OldOwn \notin DOMAIN files
-\* Read answers for the names that climb out of logs/ are nil
 =============================================================================
